@@ -52,6 +52,7 @@ func runC07(c *Ctx) {
 	c.rule("Z3", "unzip: the name joined to the destination is the entry's zip.FileHeader.Name itself (charset transcoding aside)", 1)
 	c.rule("V6", "a method of the filesystem that is handed an already opened file consults the closed guard before it touches that handle: a handle taken before Close() serves nothing afterwards", 4)
 	c.rule("V7", "where the guard found the filesystem closed, the error returned is the guard's own ('failed condition'), not a fresh error of another kind", 30)
+	c.rule("Z5", "legal names are not refused: the zip-slip tests of the extraction look for path elements equal to \"..\", never for the substring (a..b.txt, ..leading and trailing.. are names the zip side produces)", 1)
 	c.rule("Z4", "unzip: every way round the entry loop that creates an entry appends its path (or the paths of the nested extraction) to the list returned, in that same iteration", 2)
 	c.rule("Z2", "unzip: file times restored from the entry's info after the copy; directory infos recorded and restored after the loop before the successful return", 3)
 
@@ -64,6 +65,7 @@ func runC07(c *Ctx) {
 	c.c07NamesVerbatim()
 	c.c07Listed()
 	c.c07Handles()
+	c.c07DotsInNames()
 }
 
 func (c *Ctx) c07Guard() {
@@ -771,6 +773,40 @@ func (c *Ctx) c07Handles() {
 // returnedAlongAny: result k of return r (named results spilled by a defer are loaded just before the return).
 func returnedAlongAny(r *ssa.Return, k int) ssa.Value {
 	return r.Results[k]
+}
+
+// c07DotsInNames (Z5): the quantifier of the round trip includes names with leading and doubled dots. A refusal
+// decided by strings.Contains(path, "..") refuses them; only an element equal to ".." is a parent reference.
+func (c *Ctx) c07DotsInNames() {
+	n := 0
+	bad := ""
+	for _, name := range []string{"sanitiseZipExtractPath", "(*VFS).unzip", "(*VFS).unzipNestedZipFiles", "(*VFS).unzipZippedFile", "determineUnzippedFilepath"} {
+		f := c.fnOpt(fsPkgRel, name)
+		if f == nil {
+			continue
+		}
+		c.FuncsSeen[fname(f)] = true
+		n++
+		allInstrs(f, func(in ssa.Instruction) {
+			cl, ok := in.(*ssa.Call)
+			if !ok {
+				return
+			}
+			cn := calleeFull(&cl.Call)
+			if cn != "strings.Contains" && cn != "strings.Index" && cn != "strings.Count" {
+				return
+			}
+			if s2, isC := constString(cl.Call.Args[1]); isC && s2 == ".." {
+				bad = c.ipos(cl)
+			}
+		})
+	}
+	if n == 0 {
+		c.fatalf("C07/Z5: extraction functions not found")
+		return
+	}
+	c.check(bad == "", "Z5", "filesystem.unzip/dots-in-names", c.pos(c.fn(fsPkgRel, "sanitiseZipExtractPath").Pos()), "no substring test for \"..\" in the extraction path",
+		"the extraction tests a path for the substring \"..\" at "+bad+": a file called a..b.txt — a legal name, archived as such by the zip side — is refused as a zip-slip attempt and the round trip fails")
 }
 
 func (c *Ctx) c07UnzipTimes() {
